@@ -184,8 +184,11 @@ class Indirect(Part):
             "cls": st.sampled_from(["ValueError", "KeyError", "OSError",
                                     "CustomError", "RecursionError"]),
             "attrs": st.sampled_from(["", ' class="c"', " id='i' title=\"t\""]),
-            "mode": st.sampled_from(["text", "structure"]),
+            "mode": st.sampled_from(["text", "structure", "position"]),
             "pre": st.sampled_from(["", "before ", "<b>x</b>"]),
+            # something the guarded element evaluates itself, successfully,
+            # before the failure happens elsewhere
+            "inner_pre": st.sampled_from(["", "${1 + 1}", "${'ok'} "]),
             # literal text of the fallback (a constant string: expression)
             "fb": st.sampled_from(["<i>E</i>", "<i>E</i>",
                                    "it's \"q\" & <i>", "Can't load",
@@ -203,14 +206,20 @@ class Indirect(Part):
         cls = case["cls"]
         import html
         lit = case.get("fb", "<i>E</i>")
-        fb = "string:" + lit if case["mode"] == "text" else \
+        position = case["mode"] == "position"
+        if position:
+            lit = "at ${error.lineno}:${error.offset}"
+        fb = "string:" + lit if case["mode"] != "structure" else \
             "structure string:" + lit
+        ip = case.get("inner_pre", "")
         oe = ' tal:on-error="%s"' % fb.replace("&", "&amp;").replace(
             "<", "&lt;").replace('"', "&quot;")
         # (what tal:content with the same expression inserts: as text only
         # the three markup characters are escaped)
         exp_fb = html.escape(lit, quote=False) if case["mode"] == "text" \
             else lit
+        if position:
+            exp_fb = "at @@"
         a = case["attrs"]
         pre = case["pre"]
         env = {}
@@ -221,17 +230,17 @@ class Indirect(Part):
         k = case["kind"]
         fail = "${boom('%s', 'T')}" % cls
         if k == "inplace_macro":
-            src = ("<r>%s<div%s%s><p metal:define-macro=\"m\">x%s</p></div>"
-                   "after</r>" % (pre, a, oe, fail))
+            src = ("<r>%s<div%s%s>%s<p metal:define-macro=\"m\">x%s</p></div>"
+                   "after</r>" % (pre, a, oe, ip, fail))
         elif k == "use_macro":
             env["lib"] = PageTemplate(
                 '<p metal:define-macro="m">x%s</p>' % fail)
-            src = ("<r>%s<div%s%s><p metal:use-macro=\"lib.macros['m']\">u"
-                   "</p></div>after</r>" % (pre, a, oe))
+            src = ("<r>%s<div%s%s>%s<p metal:use-macro=\"lib.macros['m']\">u"
+                   "</p></div>after</r>" % (pre, a, oe, ip))
         elif k == "slot_filler":
             env["lib"] = PageTemplate(
-                '<p metal:define-macro="m">m<div%s%s><i metal:define-slot='
-                '"s">d</i></div>z</p>' % (a, oe), **cfg)
+                '<p metal:define-macro="m">m<div%s%s>%s<i metal:define-slot='
+                '"s">d</i></div>z</p>' % (a, oe, ip), **cfg)
             src = ("<r>%s<p metal:use-macro=\"lib.macros['m']\">"
                    "<u metal:fill-slot=\"s\">f%s</u></p>after</r>" % (
                        pre, fail))
@@ -268,7 +277,38 @@ class Indirect(Part):
             want = "<r>%s<p>m<div%s>%s</div>z</p>after</r>" % (pre, a, exp_fb)
         else:
             want = "<r>%s<div%s>%s</div>after</r>" % (pre, a, exp_fb)
-        if o.value != want:
+        if position and k != "translate":
+            # the reported position is that of the failing expression (in
+            # the template it stands in) or unknown - never that of another
+            # expression
+            import re
+            head, tail = want.split("@@")
+            m = re.match(re.escape(head) + r"(\d*):(\d*)" + re.escape(tail)
+                         + "$", o.value)
+            if m is None:
+                return Mismatch("indirect:%s output differs" % k, dict(
+                    detail, got=o.value, expected=want))
+            needle = "boom('%s', 'T')" % cls
+            where = src if needle in src else getattr(
+                env.get("lib"), "body", "")
+            off = where.find(needle)
+            before = where[:off]
+            true = (str(before.count("\n") + 1),
+                    str(off - before.rfind("\n") - 1))
+            ok = [("", ""), true]
+            if k == "use_macro":
+                # (the macro call itself is an expression of the guarded
+                # element: the call site is a true answer as well)
+                c = src.find("lib.macros['m']")
+                ok.append((str(src[:c].count("\n") + 1),
+                           str(c - src[:c].rfind("\n") - 1)))
+            if m.groups() not in ok:
+                return Mismatch("indirect:%s error position is that of "
+                                "another expression" % k, dict(
+                                    detail, got=m.groups(), failing_at=true))
+        elif position:
+            pass
+        elif o.value != want:
             return Mismatch("indirect:%s output differs" % k, dict(
                 detail, got=o.value, expected=want))
         if hlog != [cls]:
